@@ -13,7 +13,7 @@ from d42.declaration import DeclarationError, Schema
 from d42.declaration.types import AnySchema, DictSchema, GenericTypeAliasSchema, ListSchema
 
 __all__ = ("FwdSchema", "FwdProps", "fwd", "positions", "wrap_at", "wrap_random",
-           "erase_built", "count_wrappers", "fixed_world", "TYPE_NAME")
+           "erase_built", "count_wrappers", "fixed_world", "TYPE_NAME", "N_FACADES")
 
 
 class FwdProps(Props):
@@ -184,15 +184,16 @@ def kind_of(pos):
     return "root" if not pos else pos[-1][0]
 
 
-def wrap_at(s, chosen, prefix=()):
-    """chosen: {position: number of wrappers to put around the schema at that position}."""
-    s2 = _map_children(s, lambda child, step: wrap_at(child, chosen, prefix + (step,)))
+def wrap_at(s, chosen, prefix=(), which=None):
+    """chosen: {position: number of wrappers to put around the schema at that position}; which: the forwarding type
+    to use everywhere (None: it varies with the position)."""
+    s2 = _map_children(s, lambda child, step: wrap_at(child, chosen, prefix + (step,), which))
     for i in range(chosen.get(prefix, 0)):
-        s2 = fwd(s2, which=len(prefix) + sum(len(str(x)) for x in prefix) + i)
+        s2 = fwd(s2, which=(len(prefix) + sum(len(str(x)) for x in prefix) + i) if which is None else which)
     return s2
 
 
-def wrap_random(rng, s, rate=0.35):
+def wrap_random(rng, s, rate=0.35, which=None):
     """(wrapped tree, chosen) with a random subset of positions wrapped (at least one;
     occasionally two wrappers around the same position)."""
     pos = positions(s)
@@ -202,7 +203,10 @@ def wrap_random(rng, s, rate=0.35):
             chosen[p] = 2 if rng.random() < 0.12 else 1
     if not chosen:
         chosen[rng.choice(pos)] = 1
-    return wrap_at(s, chosen), chosen
+    return wrap_at(s, chosen, which=which), chosen
+
+
+N_FACADES = len(_FACADES)
 
 
 def erase_built(s):
